@@ -6,6 +6,7 @@ import contextlib
 import importlib
 import inspect
 import io
+import os
 import pkgutil
 from collections import OrderedDict
 
@@ -304,6 +305,33 @@ def case_strategy(entry):
     return strat()
 
 
+def _handed_back(result, tokens, depth=0, path='result'):
+    """user RDMs / datasets / arrays reached from the result through plain containers only"""
+    out = []
+    if depth > 4 or tokens is None:
+        return out
+    if id(result) in tokens and isinstance(result, (W.RDMs, W.DatasetBase, np.ndarray)):
+        return ['%s:%s' % (path, type(result).__name__)]
+    if isinstance(result, dict):
+        for k, v in result.items():
+            out += _handed_back(v, tokens, depth + 1, '%s[%r]' % (path, k))
+    elif isinstance(result, (list, tuple)):
+        for i, v in enumerate(result):
+            out += _handed_back(v, tokens, depth + 1, '%s[%d]' % (path, i))
+    return out
+
+
+# callables whose documented role is to pass the caller's objects through
+HANDBACK_OK = {
+    # format normalisers: input already in the requested form is passed through (DESIGN C12:
+    # 'batch_to_vectors/_matrices on already-vector input' - documented accessor behaviour)
+    'util.rdm_utils.batch_to_matrices', 'util.rdm_utils.batch_to_vectors',
+    'util.vis_utils.weight_to_matrices',
+    # validator: returns the dictionary it was asked to validate
+    'util.descriptor_utils.parse_input_descriptor',
+}
+
+
 def _describe(paths):
     return ', '.join(paths)
 
@@ -356,6 +384,17 @@ def check_case(case):
     if entry.key in MUTATION_ONLY:
         return
     tokens = env.tokens
+    # (B0) a value-returning operation must not hand the caller's own RDMs / dataset / array
+    # back as (part of) its result - then every later in-place operation on the 'result' is
+    # an operation on the source. Only the callables whose contract is to pass objects through
+    # are exempt (explicit list, printed in the evidence).
+    hb = _handed_back(result, tokens)
+    if hb and os.environ.get('VERIF_C12_DISCOVER'):
+        with open(os.environ['VERIF_C12_DISCOVER'], 'a') as fh:
+            fh.write('%s %s\n' % (entry.key, hb))
+    elif hb and entry.key not in HANDBACK_OK:
+        raise Violation('%s returned the caller\'s own object(s) %s as its result' % (
+            entry.short, hb), 'alias:%s:returns-argument' % entry.short)
     arg_list = [env.args[p] for p in case['order']]
     res_car = W.carriers(result, tokens, skip_user_top=True)
     src_car = W.carriers(arg_list, None, skip_user_top=False)
@@ -454,4 +493,5 @@ def evidence_extra():
             'excluded': [{'callable': k, 'reason': v} for k, v in EXCLUDED.items()],
             'mutation_only': [{'callable': k, 'reason': v} for k, v in MUTATION_ONLY.items()],
             'executed_but_no_array_or_object_parameter': out_of_scope,
+            'pass_through_allowed': sorted(HANDBACK_OK),
             'follow_up_menu': ['%s:%s' % m for m in MENU]}
